@@ -84,7 +84,7 @@ func (t Text) Concat(rhs any) (any, error) {
 	case int, *big.Int, *big.Rat, float64:
 		return Concat(t, T(vals.ToString(rhs))), nil
 	case *Segment:
-		return Concat(t, Text{rhs}), nil
+		return Concat(t, TextFromSegment(rhs)), nil
 	case Text:
 		return Concat(t, rhs), nil
 	}
